@@ -970,17 +970,17 @@ Theorem will_untouched cid m s :
   send_will cid m s = (let '(s', o, _) := deliver cid m (retain_update m s) in (s', o)).
 Proof. unfold send_will. rewrite will_action_verdict. now intros ->. Qed.
 
-(* the edit touches topic, payload and QoS only *)
+(* the edit touches topic, payload, QoS and the RETAIN flag only (the last argument packs QoS and RETAIN: rw_qos, rw_retain) *)
 Lemma will_rewrite_fields t p q m :
   let m' := with_topic_payload_qos t p q m in
-  m_topic m' = t /\ m_payload m' = p /\ m_qos m' = q /\ m_retained m' = m_retained m /\ m_dup m' = m_dup m /\
+  m_topic m' = t /\ m_payload m' = p /\ m_qos m' = rw_qos q /\ m_retained m' = rw_retain q (m_retained m) /\ m_dup m' = m_dup m /\
   m_ctype m' = m_ctype m /\ m_corr m' = m_corr m /\ m_expiry m' = m_expiry m /\ m_pfmt m' = m_pfmt m /\
   m_resp m' = m_resp m /\ m_uprops m' = m_uprops m.
 Proof. repeat split. Qed.
 
 Lemma pub_rewrite_fields t p q m :
   let m' := rewrite_msg t p q m in
-  m_topic m' = t /\ m_payload m' = p /\ m_qos m' = q /\ m_retained m' = m_retained m /\ m_dup m' = m_dup m /\
+  m_topic m' = t /\ m_payload m' = p /\ m_qos m' = rw_qos q /\ m_retained m' = rw_retain q (m_retained m) /\ m_dup m' = m_dup m /\
   m_ctype m' = m_ctype m /\ m_corr m' = m_corr m /\ m_expiry m' = m_expiry m /\ m_pfmt m' = m_pfmt m /\
   m_resp m' = m_resp m /\ m_uprops m' = m_uprops m.
 Proof. repeat split. Qed.
